@@ -210,7 +210,11 @@ def gen_patterns(rnd, spec, root):
         p = rnd.choice(paths)
         base = os.path.basename(p)
         stem = base[:-3] if base.endswith(".py") else base
-        shape = rnd.choice(["exact", "*name", "*/name", "prefix*", "*/name/*", "*name*", "*stem*", "nothing", "*/stem*", "*.py-less", "bare", "bare*"])
+        shape = rnd.choice(["exact", "*name", "*/name", "prefix*", "*/name/*", "*name*", "*stem*", "nothing", "*/stem*", "*.py-less", "bare", "bare*", "root"])
+        if shape == "root":
+            # a pattern that matches the scanned root directory itself: nothing at all is left
+            pats.append(rnd.choice(["*" + os.path.basename(root), "*/" + os.path.basename(root), root]))
+            continue
         if shape == "exact":
             pats.append(p)
         elif shape == "*name":
@@ -332,6 +336,11 @@ def one_tree(tspec, acc, rnd, sample=False, forced=None):
                             [".*/(" + re.escape(x) + "|zz_no)$", r".*/(\w+)_\1\.py$", r".*/m(\d)\1?\.py$"],
                         ])
                         acc.count("regex_exclusions_with_flags_or_backreferences")
+            if rnd.random() < 0.08:
+                # very many patterns (the effective ones last): every single one counts
+                filler = [("*no_such_entry_%03d" % k) if not use_regex else (".*/no_such_entry_%03d$" % k) for k in range(rnd.choice([99, 100, 101, 130, 257]))]
+                pats = filler + list(pats)
+                acc.count("scans_with_more_than_100_patterns")
             case = {"kind": "filtered", "spec": tspec, "mp": mp_rel, "use_regex": use_regex, "patterns": [p.replace(root, "<ROOT>") for p in pats], "include": include}
             HUB.case = case
             kw = {"exclusions": (), "regex_exclusions": tuple(pats)} if use_regex else {"exclusions": tuple(pats)}
